@@ -228,7 +228,7 @@ def run(case):
         if c['rmw_thread'] is None or c['other_writer'] is None:
             continue
         d = {'region': c['rid'], 'a': c['rmw_thread'], 'b': c['other_writer'], 'steps': c['rmw_step']}
-        s2 = dict(s, strategy='serial')
+        s2 = dict(H.without_replay(s), strategy='serial')
         res2, exc2, summ2 = H.run(lambda: _call(tsc, case, pos, weights, case['nthread'], case['npartition']), s2,
                                   poison=case['poison'], directed=d)
         if res2 is not None:
@@ -243,6 +243,16 @@ def run(case):
         out['nontrivial'] = [cfg, case['coord'], case['sort'], case['offset'], s.get('policy'), s.get('strategy'),
                              min(summ['switches'], 8)]
     return out
+
+
+def pin(case):
+    from abx_sim.analysis import tsc
+    from e1_threads import harness as H
+    ft = _f(case['dtype'])
+    pos = np.array(case['pos'], dtype=ft).reshape(-1, 3)
+    weights = None if case['weights'] is None else np.array(case['weights'], dtype=ft)
+    return H.pin_with(lambda c: H.run(lambda: _call(tsc, c, pos, weights, c['nthread'], c['npartition']), c['sched'],
+                                      poison=c['poison']), case)
 
 
 def shrink(case):
@@ -264,7 +274,7 @@ def shrink(case):
         yield dict(c, wrap=False)
     if case['offset'] != '0':
         yield dict(c, offset='0')
-    if case['sched'].get('strategy') != 'serial':
+    if case['sched'].get('strategy') != 'serial' and 'replay' not in case['sched']:
         yield dict(c, sched=dict(case['sched'], strategy='serial'))
     if case['dtype'] != 'f4':
         yield dict(c, dtype='f4')
